@@ -4,12 +4,13 @@
   rehash drops exactly the values that are not divisible by 2^skipDegree and keeps itemsCount in step.
 -/
 import SH.Model.UniqueTable
+import SH.Lemmas.UniqueTrie
 import Mathlib.Data.Finset.Card
 import Mathlib.Data.List.Perm.Basic
 import Mathlib.Data.Nat.ModEq
 namespace SH.C04
 open SH.UTable
-open SH.Unique (Params good)
+open SH.Unique (Params good Sk)
 
 def slots (t : Tb) : List Nat := t.buf.toList
 def nz (x : Nat) : Bool := x != 0
@@ -584,6 +585,307 @@ theorem insertImpl_new (P : Params) (t : Tb) (h : WF P t) (x : Nat) (hx : x ≠ 
               have := h.cnt; unfold CntOk at this
               show t.cnt + 1 = (items (put t q x)).length + (if (put t q x).zero = true then 1 else 0)
               rw [hperm.length_eq, pf.2.2.2.1, List.length_cons]; omega }
+
+
+/-! ### the table as a set, and the refinement relation to SH.Model.Unique -/
+
+theorem mem_items (t : Tb) (x : Nat) : x ∈ items t ↔ x ≠ 0 ∧ ∃ i < (slots t).length, get t i = x := by
+  unfold items
+  rw [List.mem_filter]
+  constructor
+  · rintro ⟨hm, hz⟩
+    obtain ⟨n, hn, hget⟩ := List.mem_iff_getElem.mp hm
+    refine ⟨by simpa [nz] using hz, n, hn, ?_⟩
+    rw [get_eq]; simp [List.getD, List.getElem?_eq_getElem hn, hget]
+  · rintro ⟨hx, i, hi, hget⟩
+    refine ⟨?_, by simpa [nz] using hx⟩
+    rw [get_eq] at hget
+    have : (slots t)[i] = x := by simpa [List.getD, List.getElem?_eq_getElem hi] using hget
+    rw [← this]; exact List.getElem_mem hi
+
+theorem nodup_of_inj : ∀ (l : List Nat),
+    (∀ i j, i < l.length → j < l.length → l.getD i 0 ≠ 0 → l.getD i 0 = l.getD j 0 → i = j) → (l.filter nz).Nodup := by
+  intro l
+  induction l with
+  | nil => intro _; simp
+  | cons a l ih =>
+    intro h
+    have hl : (l.filter nz).Nodup := by
+      apply ih
+      intro i j hi hj hn he
+      have := h (i + 1) (j + 1) (by simpa using hi) (by simpa using hj) (by simpa using hn) (by simpa using he)
+      omega
+    simp only [List.filter]
+    cases hz : nz a
+    · exact hl
+    · simp only
+      refine List.nodup_cons.mpr ⟨?_, hl⟩
+      intro hm
+      obtain ⟨n, hn, hget⟩ := List.mem_iff_getElem.mp (List.mem_filter.mp hm).1
+      have ha : a ≠ 0 := by simpa [nz] using hz
+      have := h 0 (n + 1) (by simp) (by simpa using hn) (by simpa using ha)
+        (by simp [List.getD, List.getElem?_eq_getElem hn, hget])
+      omega
+
+theorem wf_nodup (P : Params) (t : Tb) (h : WF P t) : (items t).Nodup := by
+  apply nodup_of_inj
+  intro i j hi hj hn he
+  have hl : (slots t).length = size t := h.shape
+  rw [← get_eq] at hn he
+  rw [← get_eq] at he
+  exact h.inj i j (by rw [← hl]; exact hi) (by rw [← hl]; exact hj) hn he
+
+/-- the set of values the table stands for -/
+def tvals (t : Tb) : Finset ℕ := (items t).toFinset ∪ (if t.zero then {0} else ∅)
+
+theorem zero_not_mem_items (t : Tb) : 0 ∉ items t := by
+  intro h; exact ((mem_items t 0).mp h).1 rfl
+
+theorem card_tvals (t : Tb) (hn : (items t).Nodup) : (tvals t).card = (items t).length + (if t.zero then 1 else 0) := by
+  unfold tvals
+  have h0 : (0 : ℕ) ∉ (items t).toFinset := by rw [List.mem_toFinset]; exact zero_not_mem_items t
+  split
+  · rw [Finset.card_union_of_disjoint (by simpa using h0), List.toFinset_card_of_nodup hn]; simp
+  · simp [List.toFinset_card_of_nodup hn]
+
+/-- `s` (set model) is the abstraction of the table `t` -/
+structure Refines (P : Params) (t : Tb) (s : Sk) : Prop where
+  alloc : s.alloc = t.alloc
+  k : s.k = t.k
+  sd : s.sd = t.sd
+  cnt : s.cnt = t.cnt
+  vals : keys P.bits s.items = tvals t
+  bound : ∀ x ∈ tvals t, x < 2 ^ P.bits
+
+theorem has_iff_tvals (P : Params) (t : Tb) (s : Sk) (r : Refines P t s) (x : Nat) (hx : x < 2 ^ P.bits) :
+    Unique.has P s x = true ↔ x ∈ tvals t := by
+  unfold Unique.has; rw [mem_iff _ _ _ hx, r.vals]
+
+/-- insertImpl commutes with the abstraction and keeps the table well-formed (needs one free slot) -/
+theorem insertImpl_refines (P : Params) (t : Tb) (s : Sk) (w : WF P t) (r : Refines P t s) (x : Nat) (hx : x < 2 ^ P.bits)
+    (j : Nat) (hj : j < size t) (hj0 : get t j = 0) :
+    WF P (UTable.insertImpl P t x) ∧ Refines P (UTable.insertImpl P t x) (Unique.insertImpl P s x) := by
+  have hl : (slots t).length = size t := w.shape
+  by_cases hx0 : x = 0
+  · subst hx0
+    have hmem : (0 : ℕ) ∈ tvals t ↔ t.zero = true := by
+      unfold tvals
+      cases hz : t.zero <;> simp [zero_not_mem_items t]
+    unfold UTable.insertImpl Unique.insertImpl
+    rw [if_pos rfl]
+    by_cases hz : t.zero = true
+    · rw [if_pos hz, if_pos ((has_iff_tvals P t s r 0 hx).mpr (hmem.mpr hz))]; exact ⟨w, r⟩
+    · rw [if_neg hz, if_neg (fun c => hz (hmem.mp ((has_iff_tvals P t s r 0 hx).mp c)))]
+      have hz' : t.zero = false := by simpa using hz
+      refine ⟨{ shape := w.shape, inj := w.inj, reach := w.reach, cnt := ?_ }, ?_⟩
+      · have := w.cnt; unfold CntOk at this ⊢
+        show t.cnt + 1 = (items t).length + 1
+        rw [this, hz']; simp
+      · refine { alloc := r.alloc, k := r.k, sd := r.sd, cnt := by show s.cnt + 1 = t.cnt + 1; rw [r.cnt], vals := ?_, bound := ?_ }
+        · show keys P.bits (s.items.insert P.bits 0) = (items t).toFinset ∪ {0}
+          rw [keys_insert _ _ _ hx, r.vals]; unfold tvals; rw [hz']; simp [Finset.union_comm]
+        · intro y hy
+          have : y ∈ (items t).toFinset ∪ {0} := hy
+          rcases Finset.mem_union.mp this with h | h
+          · exact r.bound y (by unfold tvals; exact Finset.mem_union_left _ h)
+          · rw [Finset.mem_singleton.mp h]; exact hx
+  · by_cases hst : x ∈ items t
+    · -- already stored: both sides are no-ops
+      obtain ⟨_, i, hi, hget⟩ := (mem_items t x).mp hst
+      have hin : x ∈ tvals t := by unfold tvals; exact Finset.mem_union_left _ (List.mem_toFinset.mpr hst)
+      have e1 : UTable.insertImpl P t x = t := by
+        rw [← hget]; exact insertImpl_present P t w i (by rw [← hl]; exact hi) (by rw [hget]; exact hx0)
+      have e2 : Unique.insertImpl P s x = s := by
+        unfold Unique.insertImpl; rw [if_pos ((has_iff_tvals P t s r x hx).mpr hin)]
+      rw [e1, e2]; exact ⟨w, r⟩
+    · have hnew : ∀ i < size t, get t i ≠ x := by
+        intro i hi hc
+        exact hst ((mem_items t x).mpr ⟨hx0, i, by rw [hl]; exact hi, hc⟩)
+      obtain ⟨w', hperm, hdr, hcnt⟩ := insertImpl_new P t w x hx0 hnew j hj hj0
+      have hnin : x ∉ tvals t := by
+        unfold tvals
+        intro c
+        rcases Finset.mem_union.mp c with h | h
+        · exact hst (List.mem_toFinset.mp h)
+        · split at h
+          · exact hx0 (Finset.mem_singleton.mp h)
+          · simp at h
+      have e2 : Unique.insertImpl P s x = { s with items := s.items.insert P.bits x, cnt := s.cnt + 1 } := by
+        unfold Unique.insertImpl; rw [if_neg (fun c => hnin ((has_iff_tvals P t s r x hx).mp c))]
+      have htv : tvals (UTable.insertImpl P t x) = insert x (tvals t) := by
+        unfold tvals
+        rw [hdr.2.2.1]
+        ext y
+        simp only [Finset.mem_union, List.mem_toFinset, Finset.mem_insert, hperm.mem_iff, List.mem_cons]
+        tauto
+      refine ⟨w', ?_⟩
+      rw [e2]
+      exact { alloc := r.alloc.trans hdr.2.2.2.symm, k := r.k.trans hdr.2.1.symm, sd := r.sd.trans hdr.1.symm,
+              cnt := by show s.cnt + 1 = _; rw [hcnt, r.cnt],
+              vals := by show keys P.bits (s.items.insert P.bits x) = _; rw [keys_insert _ _ _ hx, r.vals, htv],
+              bound := by
+                intro y hy; rw [htv] at hy
+                rcases Finset.mem_insert.mp hy with h | h
+                · rw [h]; exact hx
+                · exact r.bound y h }
+
+
+/-! ### the executable check `wfb` decides `WF` -/
+
+theorem findsAll_iff (P : Params) (t : Tb) :
+    findsAll P t = true ↔ ∀ i < size t, get t i ≠ 0 → probe t (get t i) (size t) (place P t (get t i)) = some i := by
+  unfold findsAll
+  rw [List.all_eq_true]
+  constructor
+  · intro h i hi hn
+    have := h i (List.mem_range.mpr hi)
+    simpa [hn] using this
+  · intro h i hi
+    by_cases hn : get t i = 0
+    · simp [hn]
+    · simp [hn, h i (List.mem_range.mp hi) hn]
+
+theorem wf_of_finds (P : Params) (t : Tb) (hs : Shape t) (hc : CntOk t)
+    (hf : ∀ i < size t, get t i ≠ 0 → probe t (get t i) (size t) (place P t (get t i)) = some i) : WF P t := by
+  refine { shape := hs, inj := ?_, reach := ?_, cnt := hc }
+  · intro i j hi hj hn he
+    have a := hf i hi hn
+    have b := hf j hj (by rw [← he]; exact hn)
+    rw [← he] at b
+    rw [a] at b; exact Option.some.inj b
+  · intro i hi hn e he
+    obtain ⟨d, hd, hq, _, hpre⟩ := probe_some t _ _ _ i (place_lt P t _) (hf i hi hn)
+    have : cdist (size t) (place P t (get t i)) i = d := by
+      have h2 := cdist_add (size t) (place P t (get t i)) d (place_lt P t _) hd
+      rw [← hq] at h2; exact h2
+    rw [this] at he
+    exact (hpre e he).2
+
+/-- `wfb` (run by the driver after every op, and by `decide` in the witnesses) is exactly `WF` -/
+theorem wfb_iff (P : Params) (t : Tb) (ha : t.alloc = true) : wfb P t = true ↔ WF P t := by
+  have hsh : (t.buf.size == size t) = true ↔ Shape t := by
+    unfold Shape slots; simp
+  have hcn : (t.cnt == occupied t + (if t.zero then 1 else 0)) = true ↔ CntOk t := by
+    unfold CntOk occupied items slots nz; simp
+  unfold wfb
+  simp only [ha, Bool.not_true, Bool.false_eq_true, if_false, Bool.and_eq_true]
+  rw [hsh, hcn, findsAll_iff]
+  constructor
+  · rintro ⟨⟨a, b⟩, c⟩; exact wf_of_finds P t a b c
+  · intro w; exact ⟨⟨w.shape, w.cnt⟩, fun i hi hn => lookup_complete P t w i hi hn⟩
+
+/-! ### rehash and resize commute with the abstraction (values, counters) -/
+
+theorem good_iff (k y : Nat) : good k y = true ↔ y % 2 ^ k = 0 := by simp [good]
+
+/-- "set-level invariant": slots as sizeDegree says, itemsCount right, no value stored twice -/
+structure Tidy (t : Tb) : Prop where
+  shape : Shape t
+  cnt : CntOk t
+  nodup : (items t).Nodup
+
+theorem wf_tidy (P : Params) (t : Tb) (w : WF P t) : Tidy t := ⟨w.shape, w.cnt, wf_nodup P t w⟩
+
+theorem tidy_cnt (t : Tb) (h : Tidy t) : t.cnt = (tvals t).card := by
+  rw [card_tvals t h.nodup]; exact h.cnt
+
+/-- rehash (both loops) after setting skipDegree to `k'`: the table keeps exactly the stored values divisible by 2^k',
+    itemsCount follows — the same as SH.Unique.rehash does on the set -/
+theorem rehash_refines (P : Params) (t : Tb) (s : Sk) (h : Tidy t) (r : Refines P t s) (k' : Nat) :
+    Tidy (UTable.rehash P { t with k := k' }) ∧
+    Refines P (UTable.rehash P { t with k := k' }) (Unique.rehash P { s with k := k' }) := by
+  obtain ⟨s1, h1, c1, p1⟩ := rehash_items P { t with k := k' } h.shape h.cnt
+  have hperm : (items (UTable.rehash P { t with k := k' })).Perm ((items t).filter (good k')) := p1
+  have hnd : (items (UTable.rehash P { t with k := k' })).Nodup := hperm.nodup_iff.mpr (h.nodup.filter _)
+  have tidy' : Tidy (UTable.rehash P { t with k := k' }) := ⟨s1, c1, hnd⟩
+  have hz : (UTable.rehash P { t with k := k' }).zero = t.zero := h1.2.2.1
+  have htv : tvals (UTable.rehash P { t with k := k' }) = fil k' (tvals t) := by
+    ext y
+    unfold tvals
+    rw [hz, mem_fil]
+    simp only [Finset.mem_union, List.mem_toFinset, hperm.mem_iff, List.mem_filter, good_iff]
+    constructor
+    · rintro (⟨a, b⟩ | c)
+      · exact ⟨Or.inl a, b⟩
+      · refine ⟨Or.inr c, ?_⟩
+        split at c
+        · rw [Finset.mem_singleton.mp c]; simp
+        · simp at c
+    · rintro ⟨a | c, b⟩
+      · exact Or.inl ⟨a, b⟩
+      · exact Or.inr c
+  have habs : keys P.bits (Unique.rehash P { s with k := k' }).items = fil k' (tvals t) := by
+    show keys P.bits (s.items.thin P.bits k') = _
+    rw [keys_thin, r.vals]
+  refine ⟨tidy', { alloc := r.alloc.trans h1.2.2.2.symm, k := h1.2.1.symm, sd := r.sd.trans h1.1.symm, cnt := ?_,
+                   vals := by rw [habs, htv], bound := ?_ }⟩
+  · show s.cnt - (s.items.size P.bits - (s.items.thin P.bits k').size P.bits) = _
+    rw [tidy_cnt _ tidy', htv, size_eq, size_eq, keys_thin, r.vals, r.cnt, tidy_cnt t h]
+    have : (fil k' (tvals t)).card ≤ (tvals t).card := Finset.card_le_card (Finset.filter_subset _ _)
+    omega
+  · intro y hy; rw [htv] at hy; exact r.bound y ((mem_fil _ _ _).mp hy).1
+
+/-- resize (either loop bound) only moves values: same set, same itemsCount, new sizeDegree -/
+theorem resize_refines (v : ResizeV) (P : Params) (t : Tb) (s : Sk) (h : Tidy t) (r : Refines P t s) (n : Nat) (hn : t.sd ≤ n) :
+    Tidy (resize v P t n) ∧ Refines P (resize v P t n) { s with sd := n } := by
+  obtain ⟨s1, c1, p1, esd, ek, ez, ec, ea⟩ := resize_items v P t n h.shape h.cnt hn
+  have htv : tvals (resize v P t n) = tvals t := by
+    unfold tvals; rw [ez]; ext y; simp only [Finset.mem_union, List.mem_toFinset, p1.mem_iff]
+  exact ⟨⟨s1, c1, p1.nodup_iff.mpr h.nodup⟩,
+    { alloc := r.alloc.trans ea.symm, k := r.k.trans ek.symm, sd := esd.symm, cnt := r.cnt.trans ec.symm,
+      vals := by rw [htv]; exact r.vals, bound := by intro y hy; rw [htv] at hy; exact r.bound y hy }⟩
+
+
+/-! ### shrinkIfNeed / insertHash at the level of values -/
+
+theorem thinLoop_refines (P : Params) : ∀ (f : Nat) (t : Tb) (s : Sk), Tidy t → Refines P t s →
+    Tidy (UTable.thinLoop P f t) ∧ Refines P (UTable.thinLoop P f t) (Unique.thinLoop P f s) := by
+  intro f
+  induction f with
+  | zero => intro t s h r; exact ⟨h, r⟩
+  | succ f ih =>
+    intro t s h r
+    simp only [UTable.thinLoop, Unique.thinLoop]
+    by_cases hov : Unique.limit P < t.cnt
+    · have hov' : Unique.overLimit P s = true := by simp [Unique.overLimit, r.cnt, hov]
+      rw [if_pos hov, if_pos hov', r.k]
+      obtain ⟨h', r'⟩ := rehash_refines P t s h r (t.k + 1)
+      exact ih _ _ h' r'
+    · have hov' : ¬ (Unique.overLimit P s = true) := by simp [Unique.overLimit, r.cnt, hov]
+      rw [if_neg hov, if_neg hov']
+      exact ⟨h, r⟩
+
+theorem shrinkIfNeed_refines (v : ResizeV) (P : Params) (t : Tb) (s : Sk) (h : Tidy t) (r : Refines P t s) :
+    Tidy (UTable.shrinkIfNeed v P t) ∧ Refines P (UTable.shrinkIfNeed v P t) (Unique.shrinkIfNeed P s) := by
+  unfold UTable.shrinkIfNeed Unique.shrinkIfNeed
+  by_cases hfit : t.cnt ≤ UTable.maxFill t
+  · have hfit' : Unique.fits s = true := by
+      simp only [Unique.fits, Unique.maxFill, decide_eq_true_eq, r.cnt, r.sd]; exact hfit
+    rw [if_pos hfit, if_pos hfit']; exact ⟨h, r⟩
+  · have hfit' : ¬ (Unique.fits s = true) := by
+      simp only [Unique.fits, Unique.maxFill, decide_eq_true_eq, r.cnt, r.sd]; exact hfit
+    rw [if_neg hfit, if_neg hfit']
+    by_cases hov : Unique.limit P < t.cnt
+    · have hov' : Unique.overLimit P s = true := by simp [Unique.overLimit, r.cnt, hov]
+      rw [if_pos hov, if_pos hov']
+      exact thinLoop_refines P _ t s h r
+    · have hov' : ¬ (Unique.overLimit P s = true) := by simp [Unique.overLimit, r.cnt, hov]
+      rw [if_neg hov, if_neg hov', r.sd]
+      exact resize_refines v P t s h r (t.sd + 1) (by omega)
+
+/-- one insertHash step from a well-formed table: the table and the set model agree on the stored values, itemsCount,
+    skipDegree and sizeDegree afterwards (for either bound of the resize loop) -/
+theorem insertHash_refines_values (v : ResizeV) (P : Params) (t : Tb) (s : Sk) (w : WF P t) (r : Refines P t s) (x : Nat)
+    (hx : x < 2 ^ P.bits) (j : Nat) (hj : j < size t) (hj0 : get t j = 0) :
+    Tidy (UTable.insertHash v P t x) ∧ Refines P (UTable.insertHash v P t x) (Unique.insertHash P s x) := by
+  unfold UTable.insertHash Unique.insertHash
+  rw [r.k]
+  by_cases hg : good t.k x = true
+  · rw [if_pos hg, if_pos hg]
+    obtain ⟨w', r'⟩ := insertImpl_refines P t s w r x hx j hj hj0
+    exact shrinkIfNeed_refines v P _ _ (wf_tidy P _ w') r'
+  · rw [if_neg hg, if_neg hg]
+    exact ⟨wf_tidy P t w, r⟩
 
 
 end SH.C04
